@@ -150,7 +150,7 @@ func genOps(rng *rand.Rand, steps int, maxLen int, size0 int64, readonly bool, z
 }
 
 func run(c *eng.Ctx) error {
-	nseq := c.N(100, 1500)
+	nseq := c.N(100, 1000)
 	root, err := os.MkdirTemp("", "kvh-c12-")
 	if err != nil {
 		return err
@@ -262,6 +262,12 @@ func run(c *eng.Ctx) error {
 		}
 		c.W.Reset(t, map[string]any{"impl": impl, "cap": int(capv), "seq": seq, "zlw": zlw, "init": ints(init)})
 		c.Inc("traces_"+impl, 1)
+		// a panic inside the code under test is recorded as an event no specification action explains (=> rejected, replayable)
+		defer func() {
+			if e := recover(); e != nil {
+				c.W.Ev("Panic", "what", fmt.Sprint(e))
+			}
+		}()
 		for _, o := range ops {
 			sizeBefore := sizeOf()
 			switch o.kind {
